@@ -65,6 +65,13 @@ func (p *Prog) indexClosures(pk *packages.Package, outerKey string, fd *ast.Func
 					reg(x.Names[i], fl)
 				}
 			}
+		case *ast.KeyValueExpr:
+			// "T{ Field: func(...) {...} }": the literal bound to a struct field is "<key>$<Field>"
+			if fl, ok := ast.Unparen(x.Value).(*ast.FuncLit); ok {
+				if id, ok := x.Key.(*ast.Ident); ok {
+					reg(id, fl)
+				}
+			}
 		}
 		return true
 	})
